@@ -503,6 +503,8 @@ def to_wire(x):
         return "true" if x else "false"
     if isinstance(x, int):
         return str(x)
+    if isinstance(x, str):
+        return '"' + x.replace("\\", "\\\\").replace('"', '\\"') + '"'
     if isinstance(x, (list, tuple)):
         return "(" + " ".join(to_wire(y) for y in x) + ")"
     raise TypeError(repr(x))
